@@ -231,8 +231,7 @@ class BootEngine(object):
         if mode in (2, 3):
             fields = [f for f in self.sv["fields"].values()
                       if f.length == 1 and f.kind != "s" and
-                      f.name not in ("unix_time", "boot_sig", "root_chip") and
-                      not f.name.startswith("__PAD")]
+                      f.name not in ("unix_time", "boot_sig", "root_chip")]
             for _ in range(1 + t.draw(4)):
                 f = fields[t.draw(len(fields))]
                 opts[f.name] = t.draw(1 << (8 * f.size))
